@@ -43,6 +43,21 @@ def gen_workbook(rng, cyclic):
                 d1, d2 = rng.choice(['', '$']), rng.choice(['', '$'])
                 parts.append('%s%s%s%s%d' % (pre, d1, COLS[q[1]], d2, q[2] + 1))
                 ds.append(q)
+            elif form < 0.67:
+                # SUMIF whose sum range is written SHORTER than (or as one cell of) the criteria range: Excel — and the translator — sum the
+                # cells that start at its top-left corner and have the shape of the criteria range, so those are the dependencies
+                r2 = min(3, q[2] + rng.randint(1, 2))
+                n_rows = r2 - q[2] + 1
+                t = rng.choice(cand)
+                if t[2] + n_rows - 1 > 3:
+                    t = (t[0], t[1], 3 - (n_rows - 1))
+                tpre = '' if t[0] == p[0] else '%s!' % TITLES[t[0]]
+                written_end = t[2] + rng.choice([0, 0, n_rows - 1, max(0, n_rows - 2)])
+                tgt = addr(t[1], t[2]) if written_end == t[2] and rng.random() < 0.5 else '%s:%s' % (addr(t[1], t[2]), addr(t[1], written_end))
+                parts.append('SUMIF(%s%s:%s,">0",%s%s)' % (pre, addr(q[1], q[2]), addr(q[1], r2), tpre, tgt))
+                ds += [(q[0], q[1], r) for r in range(q[2], r2 + 1)] + [(t[0], t[1], t[2] + k) for k in range(n_rows)]
+                rel += [pre == ''] * n_rows + [tpre == ''] * n_rows
+                continue
             elif form < 0.8:
                 r2 = min(3, q[2] + rng.randint(1, 2))
                 parts.append('SUM(%s%s:%s)' % (pre, addr(q[1], q[2]), addr(q[1], r2)))
@@ -56,7 +71,8 @@ def gen_workbook(rng, cyclic):
         if rng.random() < 0.2 and len(parts) >= 2:
             f = '=IF(%s>2,%s,%s)' % (parts[0], parts[1], parts[-1])
         else:
-            f = '=' + rng.choice(['+', '*', '+']).join(parts)
+            # a * between two quoted criteria would be lexed as ONE wildcard-pattern literal (the greedy pattern token, recorded under C07)
+            f = '=' + ('+' if sum('"' in x for x in parts) >= 2 else rng.choice(['+', '*', '+'])).join(parts)
         cells[p] = f
         deps[p] = ds
         relmap[p] = rel
